@@ -17,7 +17,8 @@ regular expression (`pattern_to_regex`) that is matched against the path written
 which - without negations - is: when some line matches.
 
 This file models that decision for the lines of six classes (everything else is outside the
-fragment: `Pat.parse` answers `none`):
+fragment: `Pat.parse` answers `none`), plus the lines pathspec ignores (blank lines and `#`
+comments: `ignoredLine`, skipped by `parseAll`):
 
 | class      | text      | pathspec's normalised segments | regular expression               |
 |------------|-----------|--------------------------------|----------------------------------|
@@ -212,12 +213,26 @@ def builtin : List Pat := builtinNames.map .name
 two, in any order -/
 def excludedWith (user : List Pat) (p : Path) : Bool := excludedBy (builtin ++ user) p
 
-/-- all lines of a list parsed; `none` when one of them is outside the fragment -/
+/-- **a line pathspec ignores**: `GitWildMatchPattern.pattern_to_regex` strips the line and returns
+the null pattern (regex `None`, matches nothing, decides nothing) when the rest is empty or starts
+with `#` - blank lines and comments, as in git.  (Blank = space or tab here; Python's `strip()`
+removes more kinds of white space: lines made of those are simply outside the fragment.) -/
+def ignoredLine (s : Str) : Bool :=
+  match s.dropWhile (fun c => c == 32 || c == 9) with
+  | [] => true
+  | c :: _ => c == 35
+
+/-- all lines of a list parsed, **blank lines and `#` comment lines skipped** (`ignoredLine`: they
+contribute no pattern, as in pathspec and git); `none` when one of the other lines is outside the
+fragment.  `_read_gitignore` hands over ALL lines of the file (`read_text().splitlines()`), so
+this is what makes the result `some` on ordinary `.gitignore` files. -/
 def parseAll : List Str → Option (List Pat)
   | [] => some []
   | s :: r =>
-    match Pat.parse s, parseAll r with
-    | some q, some qs => some (q :: qs)
-    | _, _ => none
+    if ignoredLine s then parseAll r
+    else
+      match Pat.parse s, parseAll r with
+      | some q, some qs => some (q :: qs)
+      | _, _ => none
 
 end CL.Gi
